@@ -25,7 +25,7 @@ MANIFEST = {
 
 REQUIRED = ["KV.C01.constants_ok", "KV.C01.table_represents", "KV.C01.fullScore_prob", "KV.C01.fullScore_prob_table",
             "KV.C01.stateFor_null", "KV.C01.stateFor_begin", "KV.C01.stateFor_step", "KV.C01.scoreSeq_spec",
-            "KV.C01.forgot_prob"]
+            "KV.C01.forgot_prob", "KV.C01.length_longest", "KV.C01.indep_left_iff", "KV.C01.quant_exact"]
 
 
 def case_fails(hexe, dexe, workdir, want):
@@ -40,11 +40,30 @@ def case_fails(hexe, dexe, workdir, want):
     return f
 
 
+def forced_classes(tier):
+    """model classes every run must contain (generic classes, not inputs): deep blank chains at orders 4..6
+    (all basis orders x chain lengths) and high fan-out models for each -a value"""
+    f = [{"kind": "corpus", "chains": True, "order": 6}, {"kind": "pruned", "chains": True, "order": 6},
+         {"kind": "corpus", "chains": True, "order": 5}, {"kind": "pruned", "chains": True, "order": 5},
+         {"kind": "random", "chains": True, "order": 6}, {"kind": "corpus", "chains": True, "order": 4}]
+    abits = [1, 2, 3, 4, 6, 9, 22, 25, 64, 255]
+    f += [{"kind": "fanout", "abits": a} for a in (abits if tier != "quick" else abits[1:10:2])]
+    return f
+
+
 def lm_stream(ctx, hexe, dexe, n_cases, size, want=("oracle", "struct", "spec"), tag="lm-query"):
     work = fresh_scratch("c01_%s_%d" % (ctx.pid, os.getpid()))
     found = False
+    forces = forced_classes(ctx.tier)
     for ci in range(n_cases):
-        case = lmgen.gen_case(ctx.rng, size=size)
+        force = forces[ci] if ci < len(forces) else ({"kind": "fanout"} if ctx.rng.random() < 0.03 else None)
+        case = lmgen.gen_case(ctx.rng, size=size, force=force)
+        for (b, L) in getattr(case, "chains", []):
+            ctx.hist("lm.blankchain.order%d" % case.meta["order"], "basis=%d,len=%d" % (b, L))
+        if case.meta["kind"] == "fanout":
+            ctx.hist("lm.fanout.abits", case.abits)
+            ctx.hist("lm.fanout.buckets_spanned_min", case.meta["buckets_spanned_min"])
+            ctx.cov["fanout_max_buckets_spanned"] = max(ctx.cov.get("fanout_max_buckets_spanned", 0), case.meta["buckets_spanned_min"])
         path = lmq.write_case(case, work, "c%d" % ci)
         ops = lmq.make_ops(path, case)
         (rc1, o1, e1), (rc2, o2, e2) = lmq.run_both(hexe, dexe, ops)
@@ -71,6 +90,7 @@ def lm_stream(ctx, hexe, dexe, n_cases, size, want=("oracle", "struct", "spec"),
         ctx.hist("lm.skipped", st.get("skipped"))
         ctx.hist("lm.blanks", min(info.get("blanks", 0), 20) if isinstance(info.get("blanks", 0), int) else "?")
         ctx.hist("lm.qfit", st.get("qfit"))
+        ctx.hist("lm.hash_injective", info.get("hashinj"))
         if st.get("probing_size"):
             ctx.hist("lm.probing_size_exception", True)
         ctx.count((tag, case.arpa, tuple(map(str, case.queries))), nontrivial=st["nontrivial"] > 0 and not st.get("skipped"),
@@ -118,7 +138,9 @@ def run(ctx):
     ctx.cov["rule"] = ("lm-query: one evaluation = one scored word (compared for each of the six model classes and for "
                        "FullScore/FullScoreForgotState/GetState); a case (ARPA bytes + queries) is distinct by content and "
                        "non-trivial when some word matched an n-gram of length >= 2 or charged a back-off")
-    ctx.assumptions += ["64-bit hash injectivity on the n-grams of each generated model (MurmurHash / CombineWordHash)",
+    ctx.assumptions += ["CombineWordHash injectivity on the table keys is CHECKED per generated model by the driver (hashinj flag; "
+                        "colliding models are discarded and counted); collisions of a *queried* absent n-gram with a stored key and "
+                        "MurmurHash collisions of vocabulary strings remain assumptions",
                         "float32 arithmetic within (k+1)*2^-23*sum|terms| of the exact rational recursion",
                         "quantised classes compared in value only when every order's value count fits the bins"]
     flow.report_obligation_failures(ctx, problems, found)
